@@ -73,6 +73,10 @@ func (f *Typecase) Call(s *slip.Scope, args slip.List, depth int) (result slip.O
 		}
 		for i := 1; i < len(clause); i++ {
 			result = slip.EvalArg(s, clause, i, d2)
+			switch result.(type) {
+			case *slip.ReturnResult, *GoTo:
+				return // pass a return-from, return or go on to its target
+			}
 		}
 		break
 	}
